@@ -85,6 +85,12 @@ func (m *Model) Observe(r *StepRec) {
 				ri.Status = "expired"
 			}
 		}
+	case KRestart:
+		for _, ri := range m.Reqs {
+			if ri.Status == "pending" {
+				ri.Status = "refunded_at_restart"
+			}
+		}
 	}
 }
 
